@@ -51,25 +51,113 @@ NONE = NoneVal()
 T, F = z3.BoolVal(True), z3.BoolVal(False)
 
 
+def _gconst(g):
+    """(guard term, min, max) with cheap constant detection (no z3.simplify on big terms)"""
+    if isinstance(g, bool):
+        return z3.BoolVal(g), int(g), int(g)
+    if z3.is_true(g):
+        return g, 1, 1
+    if z3.is_false(g):
+        return g, 0, 0
+    return g, 0, 1
+
+
 def compact_chars(items, cap=None):
-    """[(guard, char)] -> SymStr of the chars whose guard holds, in order"""
-    n = len(items)
-    cap = n if cap is None else cap
-    rank = []
-    cnt = iv(0)
-    for g, _ in items:
-        rank.append(cnt)
-        cnt = z3.If(g, cnt + 1, cnt)
+    """[(guard, char)] -> SymStr of the chars whose guard holds, in order.  Constant guards are
+    folded: item k can only land on output positions between its minimal and maximal rank."""
+    its = []
+    lo = hi = 0
+    cbase, csym = 0, None  # rank = cbase + csym
+    for g, c in items:
+        g, mn, mx = _gconst(g)
+        if mx == 0:
+            continue
+        its.append((g, c, lo, hi, cbase, csym))
+        lo += mn
+        hi += mx
+        if mn == 1:
+            cbase += 1
+        else:
+            inc = z3.If(g, iv(1), iv(0))
+            csym = inc if csym is None else csym + inc
+    outcap = hi if cap is None else min(cap, hi)
     chars = []
-    for j in range(cap):
+    for j in range(outcap):
         e = cv(0)
-        for k in reversed(range(n)):
-            g, c = items[k]
-            if k < j:
-                break
-            e = z3.If(z3.And(g, rank[k] == j), c, e)
+        for g, c, l, h, rb, rs in reversed(its):
+            if l <= j <= h:
+                if l == h:
+                    e = c if z3.is_true(g) else z3.If(g, c, e)
+                else:
+                    e = z3.If(z3.And(g, rs == j - rb), c, e)
         chars.append(e)
-    return SymStr(chars, z3.simplify(cnt))
+    ln = iv(cbase) if csym is None else (csym + cbase if cbase else csym)
+    return SymStr(chars, ln)
+
+
+def compact_blocks(blocks):
+    """blocks: list of blocks; a block is a list of mutually exclusive alternatives
+    (guard, [char terms]); at most one alternative of a block fires.  Returns the SymStr made of
+    the fired alternatives' chars in order.  Python-constant guards (True/False) are folded."""
+    norm = []
+    for alts in blocks:
+        exhaustive = False
+        if isinstance(alts, tuple):
+            alts, exhaustive = alts
+        alts2 = []
+        sure = exhaustive
+        for g, cs in alts:
+            g, mn, mx = _gconst(g)
+            if mx == 0:
+                continue
+            if mn == 1:
+                sure = True
+            alts2.append((g, list(cs)))
+        if alts2:
+            norm.append((alts2, sure))
+    lo = hi = 0
+    cbase, csym = 0, None
+    placed = []
+    for alts, sure in norm:
+        lens = [len(cs) for _, cs in alts]
+        mn = min(lens) if sure else 0
+        mx = max(lens)
+        placed.append((alts, lo, hi, cbase, csym))
+        lo += mn
+        hi += mx
+        if len(alts) == 1 and z3.is_true(alts[0][0]):
+            cbase += lens[0]
+        else:
+            inc = iv(0)
+            for g, cs in reversed(alts):
+                inc = z3.If(g, iv(len(cs)), inc)
+            csym = inc if csym is None else csym + inc
+    chars = []
+    for j in range(hi):
+        e = cv(0)
+        for alts, l, h, rb, rs in reversed(placed):
+            for g, cs in alts:
+                for k, c in enumerate(cs):
+                    # this char lands on j iff block rank == j - k
+                    if l <= j - k <= h:
+                        if l == h:
+                            e = c if z3.is_true(g) else z3.If(g, c, e)
+                        else:
+                            e = z3.If(z3.And(g, rs == (j - k) - rb), c, e)
+        chars.append(e)
+    ln = iv(cbase) if csym is None else (csym + cbase if cbase else csym)
+    r = SymStr(chars, ln)
+    r.lmin = max(r.lmin, lo)
+    return r
+
+
+_COVER = {}
+_KEEP = []  # keeps covered alternative lists alive (ids are keys)
+
+
+def _covers(alts):
+    """alternatives marked as exhaustive by the caller (id of the list)"""
+    return _COVER.get(id(alts), False) or any(z3.is_true(g) for g, _ in alts)
 
 
 def compact_pairs(items, cap):
